@@ -1329,7 +1329,7 @@ mod watch {
             return; // the watchdog thread is already polling
         }
         std::thread::spawn(|| {
-            let (mut seen, mut since) = (u64::MAX, std::time::Instant::now());
+            let (mut seen, mut since) = (u64::MAX, crate::report::cpu_ms()); // CPU time burnt, not wall-clock
             loop {
                 std::thread::sleep(std::time::Duration::from_millis(250));
                 let st = STATE.load(Acquire);
@@ -1344,10 +1344,10 @@ mod watch {
                 let e = EPOCH.load(Acquire);
                 if st != IN_GEO || e != seen {
                     seen = e;
-                    since = std::time::Instant::now();
+                    since = crate::report::cpu_ms();
                     continue;
                 }
-                if since.elapsed().as_secs() < HANG_SECS {
+                if crate::report::cpu_ms().saturating_sub(since) < HANG_SECS * 1000 {
                     continue;
                 }
                 if STATE.compare_exchange(IN_GEO, TAKEN, AcqRel, Acquire).is_err() {
@@ -1361,7 +1361,7 @@ mod watch {
                     m.insert("property".into(), json!("C08"));
                     m.insert("check".into(), json!("hull.hang"));
                     m.insert("expected".into(), json!("quick_hull / graham_hull / convex_hull / minimum_rotated_rect return (a case takes well under 50 ms)"));
-                    m.insert("got".into(), json!(format!("no return within {HANG_SECS} s; shard stopped")));
+                    m.insert("got".into(), json!(format!("no return within {HANG_SECS} s of CPU time; shard stopped")));
                 }
                 sh.eval(1);
                 sh.violation("hull.hang|geo call|-", d);
